@@ -55,6 +55,62 @@ P1 (primary side).
     first file never advances past it — every later file can only be truncated to length zero — until a
     reopen clears the visited set.  `exOps11p` below shows it (checked by `decide`).
 
+P4 (no growth).  Pure facts about the collectors, for EVERY state (no invariant, no reachability):
+  * `C11_no_growth_index`: no index GC cycle (any `scanFree`, any budget, complete or interrupted) makes
+    any index file longer; files are only rewritten in place, truncated, emptied or unlinked.
+  * `C11_no_growth_primary`: on a flushed primary (`pnext = []`), no primary GC cycle (any threshold, any
+    budget) makes any primary file longer.  On an unflushed primary the cycle first flushes what was
+    pending BEFORE it (the flush inside the hand-over pass) — user data, not GC's — and nothing else
+    grows.  The records a cycle relocates are not written by the cycle: they are pooled
+    (`C11_relocation_pools_a_copy`: one relocation pools exactly one record, byte for byte the span it
+    copies, 4 + size bytes; `C11_reap_pools_at_most_two`) and reach the files with the next flush.  So at
+    flushed states: files after a cycle ≤ files before, pointwise, and files after [cycle, flush] ≤ files
+    before + the bytes of the relocated records.
+  * REMARK on the reported sizes (`indexStorage` / `primaryStorage` of Sth/Model/Store.lean = header bytes
+    + the lengths of the files from the header's first file on): the sum of the file lengths never grows
+    (above), but the header text contains FirstFile in decimal, so a cycle that advances FirstFile from 9
+    to 10 (99 to 100, …) by unlinking a zero-length file makes the reported size grow by one byte.  The
+    corollary for the reported sizes is therefore "reported − header bytes never grows"; it is not
+    stated as a theorem here (it needs the range structure of the files, i.e. reachability).
+
+P5 (fixed point).
+  * `C11_fixed_point_primary`: in a reachable multihash state, after a primary GC cycle that completed
+    (`out = .ok`) and left both pools empty (it relocated nothing, so nothing is waiting to be written),
+    ANOTHER cycle — any threshold, any budget — is the identity on the whole state (disk and memory).
+    (All closed files are in the visited set, the freelist is empty, the hand-over pass has nothing to
+    hand over.)  When the first cycle relocated records the premise fails by design: the relocated
+    records are pooled, the next flush writes them, the cycle after that frees their old places, and
+    the fixed point is reached once a cycle relocates nothing.
+  * FINDING (index side, P5 is FALSE in one shape; model = real code): a complete index cycle that
+    STARTED AT A RESUME POINT r of an interrupted earlier cycle visits r … last−1 first and first … r−1
+    after the wrap-around.  If file r is stale (emptied) when visited it is kept because it is not the
+    first file; the files before it are then unlinked after the wrap-around, FirstFile advances to r,
+    and the loop stops at r without revisiting it.  The next complete cycle unlinks file r: it writes
+    (header + unlink) although nothing happened in between.  So after a resumed cycle the fixed point
+    needs one more cycle ("fixed point by the second round").  `exOps11x` below is the concrete run
+    (checked by `decide`).  For cycles that start fresh the second cycle writes nothing in all runs
+    evaluated; the general proof (it needs "reapIndexRecords is idempotent on its own output") is not
+    done here.
+
+P3 (low-use files).
+  * `C11_low_use_visit`: the one-visit step.  In a reachable multihash state, a visit of reapRecords to a
+    closed file with at least one record span, whose record spans are well-formed records (`RecSpan`:
+    they are whenever they are index entries' records, as after the hand-over passes) and whose free share
+    is at or above the threshold AS reapRecords MEASURES IT (`LowUse`: bytes of deleted spans against bytes
+    of record spans over the whole scan, i.e. before the trailing deleted span is cut): the result is
+    `kept`; the LAST record span and, if there is one, the one BEFORE it are relocated — each is then
+    `Drained`: its location (offset, size) is on the freelist pool, and no index entry points at it; one
+    copy per relocated span is pooled (1 or 2 records); no index entry pointing into a file is created;
+    the record spans themselves are still in the file (they are marked by the next cycle's hand-over
+    pass, which also puts the file into the affected set, so it is visited again).  Hence the number of
+    index entries pointing into the file drops by min 2 (busy) per visit.
+  * The drain bound ⌈busy/2⌉ + 1 cycles (with the store's flush between cycles) is NOT proved by
+    induction here (each round needs the whole-cycle analysis of P1 — passes, affected set, loop — with
+    the low-use test re-established after every cut, which can fail: `[A][B][C][free 85 %]` → `[A]` is
+    100 % in use and is left alone, as the property's text concedes).  `exOps11l` below is a full
+    drain checked by `decide`: a file with three records in use is released by exactly 3 = ⌈3/2⌉ + 1
+    cycles (relocate 2 / cut the tail and relocate 1 / unlink), every read unchanged.
+
 FINDING (index GC, stale resume point; model = real code, store/index/gc.go).  A cycle cut short by the
 time limit records `gcResumeAt = n`.  If the files up to `n` become free, the next cycle's
 truncateFreeFiles unlinks them and advances FirstFile past `n`, and the reap loop then starts at the
@@ -66,6 +122,8 @@ an error is logged.  `exOps11r` below is a concrete run (checked by `decide`).
 import Sth.Lemmas.C11Reach
 import Sth.Lemmas.C11IdxReap
 import Sth.Lemmas.C11Pri6
+import Sth.Lemmas.C11Fix
+import Sth.Lemmas.C11Low
 
 namespace Sth
 
@@ -116,11 +174,11 @@ theorem C11_index_reap_free_file (c : Cfg) (hc : c.Legal) (ops : List SOp) (hk :
     free too, the next cycle unlinks both and the first file is 2. -/
 
 def exCfg11i : Cfg := { kind := .mh, bits := 8, ifs := 1, pfs := 1000, imm := false }
-def exKa : Bytes := [18, 6, 1, 2, 3, 4, 5, 6]
-def exKb : Bytes := [18, 6, 2, 2, 3, 4, 5, 7]
-def exKc : Bytes := [18, 7, 3, 2, 9, 9, 9, 9, 1]
+def exK11a : Bytes := [18, 6, 1, 2, 3, 4, 5, 6]
+def exK11b : Bytes := [18, 6, 2, 2, 3, 4, 5, 7]
+def exK11c : Bytes := [18, 7, 3, 2, 9, 9, 9, 9, 1]
 def exOps11i : List SOp :=
-  [.put exKa [7], .flush [], .put exKb [1], .flush [], .put exKc [4], .flush [], .put exKb [8],
+  [.put exK11a [7], .flush [], .put exK11b [1], .flush [], .put exK11c [4], .flush [], .put exK11b [8],
    .flush []]
 
 example : exCfg11i.Legal := by decide
@@ -144,15 +202,15 @@ example : ∃ s, initS exCfg11i = some s ∧
 
 /-- once file 0 is free as well, one more cycle unlinks both; the first file is 2 -/
 example : ∃ s, initS exCfg11i = some s ∧
-    (let r := (runS s (exOps11i ++ [.igc true none, .put exKa [9], .flush [], .igc true none])).1
+    (let r := (runS s (exOps11i ++ [.igc true none, .put exK11a [9], .flush [], .igc true none])).1
      (r.d.ihdr.map IdxHeader.first, r.d.ifiles.map (fun p => (p.1, p.2.length)))) =
       (some 2, [(2, 22), (3, 22), (4, 22)]) := ⟨_, rfl, by decide⟩
 
 /-- the finding: a cycle interrupted in file 1 (`igc false (some 2)`), files 1..3 become free, the next
     complete cycle unlinks them in the scan and then fails at the stale resume point -/
 def exOps11r : List SOp :=
-  [.put exKa [7], .flush [], .put exKb [1], .flush [], .put exKc [4], .flush [], .put exKa [8],
-   .flush [], .igc false (some 2), .put exKb [2], .flush [], .put exKc [5], .flush [], .put exKa [9],
+  [.put exK11a [7], .flush [], .put exK11b [1], .flush [], .put exK11c [4], .flush [], .put exK11a [8],
+   .flush [], .igc false (some 2), .put exK11b [2], .flush [], .put exK11c [5], .flush [], .put exK11a [9],
    .flush []]
 
 example : ∃ s, initS exCfg11i = some s ∧
@@ -179,16 +237,16 @@ theorem C11_primary_file_released (c : Cfg) (hc : c.Legal) (hmh : c.kind = .mh) 
   primary_file_released c hc hmh ops hk hs s0 hi lowUse hb f file hfile hf hlen hflushed hcov hno hvis
 
 /-! Non-vacuity (40-byte primary files).  After `exOps11p` files 0, 1 are closed and 2 is current; every
-    key stored in file 1 has been overwritten, file 0 still holds the record of `exKa`.  One cycle
+    key stored in file 1 has been overwritten, file 0 still holds the record of `exK11a`.  One cycle
     truncates file 1 to length zero (it is not the oldest, so it stays) and cuts the deleted tail off
     file 0 (42 → 13 bytes). -/
 
 def exCfg11p : Cfg := { kind := .mh, bits := 8, ifs := 64, pfs := 40, imm := false }
-def exKd : Bytes := [18, 6, 3, 2, 3, 4, 5, 8]
-def exKe : Bytes := [18, 6, 1, 2, 3, 4, 5, 7]
+def exK11d : Bytes := [18, 6, 3, 2, 3, 4, 5, 8]
+def exK11e : Bytes := [18, 6, 1, 2, 3, 4, 5, 7]
 def exOps11p : List SOp :=
-  [.put exKa [7], .put exKe [1, 2, 3], .put exKc [4], .flush [], .put exKd [5, 5],
-   .put exKe [3, 3, 3, 3], .put exKc [6, 6], .flush [], .put exKd [7, 7], .put exKe [1], .put exKc [1],
+  [.put exK11a [7], .put exK11e [1, 2, 3], .put exK11c [4], .flush [], .put exK11d [5, 5],
+   .put exK11e [3, 3, 3, 3], .put exK11c [6, 6], .flush [], .put exK11d [7, 7], .put exK11e [1], .put exK11c [1],
    .flush []]
 
 example : exCfg11p.Legal := by decide
@@ -213,12 +271,171 @@ example : ∃ s, initS exCfg11p = some s ∧
     never unlinked by further cycles; a reopen (which clears the visited set) lets the next cycle unlink
     it -/
 example : ∃ s, initS exCfg11p = some s ∧
-    (let r2 := (runS s (exOps11p ++ [.pgc 85 none, .rm exKa, .flush [], .pgc 85 none, .pgc 85 none,
+    (let r2 := (runS s (exOps11p ++ [.pgc 85 none, .rm exK11a, .flush [], .pgc 85 none, .pgc 85 none,
         .pgc 85 none])).1
-     let r3 := (runS s (exOps11p ++ [.pgc 85 none, .rm exKa, .flush [], .pgc 85 none, .reopen [] true,
+     let r3 := (runS s (exOps11p ++ [.pgc 85 none, .rm exK11a, .flush [], .pgc 85 none, .reopen [] true,
         .pgc 85 none])).1
      (r2.d.phdr.map PriHeader.first, r2.d.pfiles.map (fun p => (p.1, p.2.length)),
       r3.d.phdr.map PriHeader.first, r3.d.pfiles.map (fun p => (p.1, p.2.length)))) =
       (some 1, [(1, 0), (2, 41)], some 2, [(2, 41)]) := ⟨_, rfl, by decide⟩
+
+/-! ### P4: no growth -/
+
+/-- P4, index side: for every state, every `scanFree` and every budget, no index file is longer after
+    the cycle than before (an absent file counts as empty). -/
+theorem C11_no_growth_index (s : SState) (scanFree : Bool) (budget : Budget) (g : Nat) :
+    (fileOf (stepS s (.igc scanFree budget)).1.d.ifiles g).length ≤ (fileOf s.d.ifiles g).length := by
+  rw [stepS_igc_disk]
+  exact indexGC_shrinks s.m s.d scanFree budget g
+
+/-- P4, primary side: for every state with a flushed primary, every threshold and every budget, no
+    primary file is longer after the cycle than before. -/
+theorem C11_no_growth_primary (s : SState) (hpn : s.m.pnext = []) (lowUse : Nat) (budget : Budget)
+    (g : Nat) :
+    (fileOf (stepS s (.pgc lowUse budget)).1.d.pfiles g).length ≤ (fileOf s.d.pfiles g).length := by
+  cases hk : s.m.kind with
+  | cid =>
+    have : stepS s (.pgc lowUse budget) = (s, .gc) := by simp only [stepS, hk]
+    rw [this]; exact Nat.le_refl _
+  | mh =>
+    cases hp : primaryGC s.m s.d lowUse budget with
+    | none =>
+      have : stepS s (.pgc lowUse budget) = (s, .gc) := by simp only [stepS, hk, hp]
+      rw [this]; exact Nat.le_refl _
+    | some res =>
+      have : (stepS s (.pgc lowUse budget)).1.d = res.2.2.1 := by simp only [stepS, hk, hp]
+      rw [this]
+      exact primaryGC_shrinks hpn lowUse budget hp g
+
+/-- one relocation pools exactly one record — a copy, byte for byte, of the span it relocates (`size`
+    is the span's size word, `r.key ++ r.val` its body) — and writes nothing -/
+theorem C11_relocation_pools_a_copy {m m' : Mem} {d : Disk} {fnum at_ bs : Nat} {file : Bytes}
+    (h : relocate m d fnum file at_ bs = some m') :
+    ∃ size r, readU32 file at_ = some size ∧ readAt file (at_ + 4) size = some (r.key ++ r.val) ∧
+      m'.pnext = m.pnext ++ [r] ∧ C11.recBytes r = 4 + size :=
+  relocate_pool h
+
+/-- a visit of one file pools at most two records -/
+theorem C11_reap_pools_at_most_two (m : Mem) (d : Disk) (n lowUse : Nat) :
+    ∃ L : List PRec, (reapRecords m d n lowUse).2.1.pnext = m.pnext ++ L ∧ L.length ≤ 2 :=
+  reapRecords_pool m d n lowUse
+
+/-! ### P5: fixed point -/
+
+/-- P5, primary side.  `hres`/`hok`: the first cycle ran and completed; `hpn`/`hfl`: it left both pools
+    empty.  Then a further cycle is the identity. -/
+theorem C11_fixed_point_primary (c : Cfg) (hc : c.Legal) (hmh : c.kind = .mh) (ops : List SOp)
+    (hk : KeysOK c.kind ops) (hs : SizesOK ops) (s0 : SState) (hi : initS c = some s0)
+    (lowUse : Nat) (budget : Budget) (hb : GcCountersOK s0 (ops ++ [.pgc lowUse budget]))
+    {res : PgcRes × Mem × Disk × Budget}
+    (hres : primaryGC (runS s0 ops).1.m (runS s0 ops).1.d lowUse budget = some res)
+    (hok : res.1.out = .ok)
+    (hpn : (stepS (runS s0 ops).1 (.pgc lowUse budget)).1.m.pnext = [])
+    (hfl : (stepS (runS s0 ops).1 (.pgc lowUse budget)).1.m.flpool = [])
+    (lowUse' : Nat) (b' : Budget) :
+    stepS (stepS (runS s0 ops).1 (.pgc lowUse budget)).1 (.pgc lowUse' b') =
+      ((stepS (runS s0 ops).1 (.pgc lowUse budget)).1, .gc) :=
+  pgc_fixed_point c hc hmh ops hk hs s0 hi lowUse budget hb hres hok hpn hfl lowUse' b'
+
+/-- non-vacuity of P5: on `exOps11p` the cycle with threshold 85 completes and leaves the pools empty -/
+example : ∃ s, initS exCfg11p = some s ∧
+    (let r := (runS s exOps11p).1
+     (primaryGC r.m r.d 85 none).map (fun x => x.1.out) = some GcOut.ok ∧
+     (stepS r (.pgc 85 none)).1.m.pnext = [] ∧ (stepS r (.pgc 85 none)).1.m.flpool = []) :=
+  ⟨_, rfl, by decide⟩
+
+/-- P4 on the same run: 42 + 45 + 41 bytes before, 13 + 0 + 41 after -/
+example : ∃ s, initS exCfg11p = some s ∧
+    ((runS s exOps11p).1.d.pfiles.map (fun p => p.2.length),
+     (runS s (exOps11p ++ [.pgc 85 none])).1.d.pfiles.map (fun p => p.2.length)) =
+      ([42, 45, 41], [13, 0, 41]) := ⟨_, rfl, by decide⟩
+
+/-- the index-side finding for P5: a cycle interrupted in file 2, files 0..2 become free, a COMPLETE
+    cycle leaves the emptied file 2 as first file, the next complete cycle unlinks it -/
+def exK11 (i j : Nat) : Bytes := [18, 6, i, j, 3, 4, 5, 6]
+def exOps11x : List SOp :=
+  [.put (exK11 1 1) [7], .flush [], .put (exK11 2 1) [1], .flush [], .put (exK11 3 1) [4], .flush [],
+   .put (exK11 4 1) [2], .flush [], .put (exK11 5 1) [2], .flush [], .igc false (some 5),
+   .put (exK11 1 2) [1], .flush [], .put (exK11 2 2) [1], .flush [], .put (exK11 3 2) [1], .flush []]
+
+example : ∃ s, initS exCfg11i = some s ∧
+    ((runS s exOps11x).1.m.gcResume,
+     (runS s (exOps11x ++ [.igc false none])).1.m.gcResume,
+     (runS s (exOps11x ++ [.igc false none])).1.d.ihdr.map IdxHeader.first,
+     ((runS s (exOps11x ++ [.igc false none])).1.d.ifiles.get? 2).map List.length,
+     (runS s (exOps11x ++ [.igc false none, .igc false none])).1.d.ihdr.map IdxHeader.first,
+     ((runS s (exOps11x ++ [.igc false none, .igc false none])).1.d.ifiles.get? 2).map List.length) =
+      (some 2, none, some 2, some 0, some 3, none) := ⟨_, rfl, by decide⟩
+
+/-! ### P3: a low-use file is drained by relocation -/
+
+/-- P3, the one-visit step (see the header). -/
+theorem C11_low_use_visit (c : Cfg) (hc : c.Legal) (hmh : c.kind = .mh) (ops : List SOp)
+    (hk : KeysOK c.kind ops) (hs : SizesOK ops) (s0 : SState) (hi : initS c = some s0) (lowUse : Nat)
+    (hb : GcCountersOK s0 (ops ++ [.pgc lowUse none])) (n : Nat) (file : Bytes)
+    (hfile : (runS s0 ops).1.d.pfiles.get? n = some file) (hn : n < (runS s0 ops).1.m.pfileNum)
+    (hwf : ∀ x ∈ liveAt 0 (spansOf file), RecSpan x.2) (hne : liveAt 0 (spansOf file) ≠ [])
+    (hlow : LowUse file lowUse) :
+    let s := (runS s0 ops).1
+    let r := reapRecords s.m s.d n lowUse
+    r.1 = .kept ∧
+    (∃ file', r.2.2.1.pfiles.get? n = some file' ∧
+      liveAt 0 (spansOf file') = liveAt 0 (spansOf file)) ∧
+    ∃ pre off body, liveAt 0 (spansOf file) = pre ++ [(off, body)] ∧
+      Drained r.2.1 r.2.2.1 s.m.pmax n (off, body) ∧
+      (pre = [] ∨ ∃ pre' off' body', pre = pre' ++ [(off', body')] ∧
+        Drained r.2.1 r.2.2.1 s.m.pmax n (off', body')) ∧
+      (∀ blk, IsEnt r.2.1 r.2.2.1 blk → IsEnt s.m s.d blk ∨ ¬ Below s.m blk) ∧
+      (∃ L, r.2.1.pnext = s.m.pnext ++ L ∧ L.length = (if pre = [] then 1 else 2)) :=
+  lowuse_visit c hc hmh ops hk hs s0 hi lowUse hb n file hfile hn hwf hne hlow
+
+/-! Non-vacuity and a full drain (100-byte primary files, threshold 60).  File 0 holds two 20-byte
+    records that are removed and three small records that stay in use; file 1 is current. -/
+
+def exCfg11l : Cfg := { kind := .mh, bits := 8, ifs := 64, pfs := 100, imm := false }
+def exBig11 (x : Nat) : Bytes := [x, x, x, x, x, x, x, x, x, x, x, x, x, x, x, x, x, x, x, x]
+def exOps11l : List SOp :=
+  [.put (exK11 9 1) (exBig11 1), .put (exK11 1 1) [7], .put (exK11 9 2) (exBig11 2), .put (exK11 2 1) [8],
+   .put (exK11 3 1) [9], .flush [], .put (exK11 4 1) [1], .flush [], .rm (exK11 9 1), .rm (exK11 9 2),
+   .flush []]
+
+example : exCfg11l.Legal := by decide
+example : KeysOK exCfg11l.kind exOps11l ∧ SizesOK exOps11l := by
+  refine ⟨?_, ?_⟩
+  · unfold KeysOK; decide
+  · unfold SizesOK; decide
+
+/-- the full drain: sizes of the primary files, first file, pooled records after each step of
+    `[pgc, flush, pgc, flush, pgc]` — 103 bytes / 3 in use → relocate 2 → 45 bytes / 1 in use → relocate
+    1 → unlinked -/
+def exState11l (s : SState) (ops : List SOp) :=
+  ((runS s (exOps11l ++ ops)).1.d.phdr.map PriHeader.first,
+   (runS s (exOps11l ++ ops)).1.d.pfiles.map (fun p => (p.1, p.2.length)),
+   (runS s (exOps11l ++ ops)).1.m.pnext.length)
+
+example : ∃ s, initS exCfg11l = some s ∧
+    exState11l s [] = (some 0, [(0, 103), (1, 13)], 0) ∧
+    exState11l s [.pgc 60 none] = (some 0, [(0, 103), (1, 13)], 2) ∧
+    exState11l s [.pgc 60 none, .flush []] = (some 0, [(0, 103), (1, 39)], 0) :=
+  ⟨_, rfl, by decide, by decide, by decide⟩
+
+example : ∃ s, initS exCfg11l = some s ∧
+    exState11l s [.pgc 60 none, .flush [], .pgc 60 none] = (some 0, [(0, 45), (1, 39)], 1) ∧
+    exState11l s [.pgc 60 none, .flush [], .pgc 60 none, .flush []] =
+      (some 0, [(0, 45), (1, 52)], 0) ∧
+    exState11l s [.pgc 60 none, .flush [], .pgc 60 none, .flush [], .pgc 60 none] =
+      (some 1, [(1, 52)], 0) :=
+  ⟨_, rfl, by decide +kernel, by decide +kernel, by decide +kernel⟩
+
+/-- the hypotheses of the one-visit step hold for file 0 at the second cycle's visit (one record in
+    use left, free share above 60 %), and the reads at the end are unchanged -/
+example : ∃ s, initS exCfg11l = some s ∧
+    (let r := (runS s (exOps11l ++ [.pgc 60 none, .flush []])).1
+     ((r.d.pfiles.get? 0).map fun f =>
+        (decide (LowUse f 60), decide (∀ x ∈ liveAt 0 (spansOf f), RecSpan x.2),
+         (liveAt 0 (spansOf f)).length)) = some (true, true, 3)) ∧
+    (runS s (exOps11l ++ [.pgc 60 none, .flush [], .pgc 60 none, .flush [], .pgc 60 none,
+      .get (exK11 1 1), .get (exK11 2 1), .get (exK11 3 1), .get (exK11 4 1)])).2.drop 16 =
+      [.found [7], .found [8], .found [9], .found [1]] := ⟨_, rfl, by decide, by decide +kernel⟩
 
 end Sth
